@@ -20,6 +20,7 @@ import (
 	"bytes"
 	"crypto/sha256"
 	"fmt"
+	"image/color"
 	"io"
 	"math"
 	"os"
@@ -71,12 +72,34 @@ type c01Hist struct {
 	keep     []any // caller-owned slices/maps handed to the library (kept alive, never mutated)
 	redo     []c01Redo
 	usedB    []int
+	palEntry []string
 	lastOp   string
 	reported map[int]bool
 }
 
 // ---------------------------------------------------------------------------------------------
 // value level: what a mesh reports through its public accessors, as exact bit patterns
+
+// everything a material reports, DEEP: through the pointer to the struct and through its *string / color fields down to
+// the pointed-to strings and colour components (a writer that "normalises" a texture path writes into those strings)
+func c01MatDeep(p *modeling.Material) string {
+	col := func(c color.Color) string {
+		if c == nil {
+			return "nil"
+		}
+		r, g, b, a := c.RGBA()
+		return fmt.Sprintf("%d,%d,%d,%d", r, g, b, a)
+	}
+	str := func(s *string) string {
+		if s == nil {
+			return "nil"
+		}
+		return fmt.Sprintf("%q", *s)
+	}
+	return fmt.Sprintf("name=%q amb=%s dif=%s spec=%s hl=%s od=%s tr=%s ct=%s nt=%s st=%s", p.Name, col(p.AmbientColor), col(p.DiffuseColor),
+		col(p.SpecularColor), F(p.SpecularHighlight), F(p.OpticalDensity), F(p.Transparency),
+		str(p.ColorTextureURI), str(p.NormalTextureURI), str(p.SpecularTextureURI))
+}
 
 func (h *c01Hist) matID(p *modeling.Material) string {
 	if p == nil {
@@ -87,7 +110,7 @@ func (h *c01Hist) matID(p *modeling.Material) string {
 		id = len(h.mats)
 		h.mats[p] = id
 	}
-	return fmt.Sprintf("%s#%d", strings.ReplaceAll(p.Name, " ", "_"), id)
+	return fmt.Sprintf("#%d:%x", id, c01MatDeep(p))
 }
 
 func (h *c01Hist) canon(m modeling.Mesh) string {
@@ -357,6 +380,14 @@ func (h *c01Hist) checkAll() {
 			h.c.Emit("c01.holds.immutable_full", fmt.Sprintf("%d %d %s | %s", h.id, i, h.entry[i], full), "true")
 		}
 	}
+	h.checkPalette()
+}
+
+// the materials themselves (reachable from every mesh that carries them or a SetMaterial copy of them)
+func (h *c01Hist) checkPalette() {
+	for i, p := range h.pal {
+		h.c.Emit("c01.holds.immutable", fmt.Sprintf("%d %d %d %s %s %s", h.id, h.step, -2-i, h.lastOp, h.palEntry[i], c01Digest(c01MatDeep(p))), "true")
+	}
 }
 
 func (h *c01Hist) checkFull() {
@@ -400,6 +431,34 @@ func (h *c01Hist) pickWhere(ok func(modeling.Mesh) bool) int {
 
 // ---------------------------------------------------------------------------------------------
 // generators
+
+// materials with texture paths a writer may want to "clean up": back slashes, spaces, upper case, dots, unicode, empty
+func c01Palette(c *Ctx, id int) []*modeling.Material {
+	uris := []string{"textures\\wood\\Oak Plank.PNG", "C:\\Users\\me\\tex.png", "a b/c d.jpg", "./rel/../UP.Tga", "", "tex/ünï.png", "plain.png"}
+	sp := func() *string {
+		if c.Rng.Intn(4) == 0 {
+			return nil
+		}
+		s := uris[c.Rng.Intn(len(uris))]
+		return &s
+	}
+	cl := func() color.Color {
+		switch c.Rng.Intn(3) {
+		case 0:
+			return nil
+		case 1:
+			return color.RGBA{uint8(c.Rng.Intn(256)), uint8(c.Rng.Intn(256)), 7, 255}
+		}
+		return color.NRGBA{200, 100, 50, uint8(c.Rng.Intn(256))}
+	}
+	var out []*modeling.Material
+	for i := 0; i < 3; i++ {
+		out = append(out, &modeling.Material{Name: []string{"mat", "Mat With Space", "m\\b"}[c.Rng.Intn(3)] + fmt.Sprint(i),
+			AmbientColor: cl(), DiffuseColor: cl(), SpecularColor: cl(), SpecularHighlight: float64(c.Rng.Intn(1000)),
+			OpticalDensity: 1.5, Transparency: c.Rng.Float64(), ColorTextureURI: sp(), NormalTextureURI: sp(), SpecularTextureURI: sp()})
+	}
+	return out
+}
 
 func (h *c01Hist) tmp() string {
 	d := filepath.Join(os.TempDir(), fmt.Sprintf("c01h-%d", os.Getpid()))
@@ -836,6 +895,7 @@ var c01OpNames = []string{
 	"write.ply", "write.obj", "write.gltf", "write.stl", "readonly",
 	"write.ply", "write.ply.meshwriter", "write.ply.save", "write.obj.meshes", "write.obj.save", "write.stl.save",
 	"write.gltf", "write.gltf", "write.gltf.text", "write.gltf.save", "write.splat", "write.spz", "awkward",
+	"write.obj.materials", "write.obj.materials", "removenullfaces", "removenullfaces",
 	"ragged", "ragged",
 }
 
@@ -1336,6 +1396,25 @@ func (h *c01Hist) apply(name string) (res []c01Result, ok bool) {
 		}
 		_ = obj.WriteMaterialsFromMesh(h.pool[a], io.Discard)
 		return nil, true
+	case "write.obj.materials":
+		a := h.pick()
+		switch rng.Intn(3) {
+		case 0:
+			for _, p := range h.pal {
+				if err := obj.WriteMaterial(*p, io.Discard); err != nil {
+					h.c.Note("write.obj.materials.err")
+				}
+			}
+		case 1:
+			if err := obj.WriteMaterials(h.pool[a].Materials(), io.Discard); err != nil {
+				h.c.Note("write.obj.materials.err")
+			}
+		default:
+			if err := obj.WriteMaterialsFromMesh(h.pool[a].SetMaterial(*h.pal[rng.Intn(len(h.pal))]), io.Discard); err != nil {
+				h.c.Note("write.obj.materials.err")
+			}
+		}
+		return nil, true
 	case "write.obj.meshes":
 		a, b := h.pick(), h.pick()
 		if err := obj.WriteMeshes([]obj.ObjMesh{{Name: "a", Mesh: h.pool[a]}, {Name: "b", Mesh: h.pool[b]}, {Name: "a2", Mesh: h.pool[a]}}, "", io.Discard); err != nil {
@@ -1537,6 +1616,73 @@ func (h *c01Hist) scriptedBranch() {
 	h.c.Note("scripted.branch")
 }
 
+// welded meshes with degenerate faces whose corners are ALL still referenced by other faces: RemoveNullFaces3D removes
+// faces but no vertex; the result is kept, the same operation then runs on OTHER meshes, and everything is re-read
+// (package-level state such as a recycled buffer shows up as a change of the first result)
+func (h *c01Hist) scriptedNullFaces() {
+	rng := h.c.Rng
+	mk := func() modeling.Mesh {
+		k := 2 + rng.Intn(3) // (k+1)^2 welded grid vertices
+		pos := make([]vector3.Float64, 0, (k+1)*(k+1))
+		for y := 0; y <= k; y++ {
+			for x := 0; x <= k; x++ {
+				pos = append(pos, vector3.New(float64(x), float64(y)*1.5, float64((x*y)%2)))
+			}
+		}
+		var idx []int
+		for y := 0; y < k; y++ {
+			for x := 0; x < k; x++ {
+				a, b, c, d := y*(k+1)+x, y*(k+1)+x+1, (y+1)*(k+1)+x, (y+1)*(k+1)+x+1
+				idx = append(idx, a, b, c, b, d, c)
+				if rng.Intn(2) == 0 {
+					// degenerate: collapsed corner / repeated vertex / sliver on an edge — corners stay referenced above
+					switch rng.Intn(3) {
+					case 0:
+						idx = append(idx, a, a, b)
+					case 1:
+						idx = append(idx, b, c, c)
+					default:
+						idx = append(idx, a, d, a)
+					}
+				}
+			}
+		}
+		idx = append(idx, 0, 0, 1) // at least one
+		h.keep = append(h.keep, pos, idx)
+		m := modeling.NewTriangleMesh(idx).SetFloat3Attribute(modeling.PositionAttribute, pos)
+		if rng.Intn(2) == 0 {
+			m = m.SetFloat3Attribute(modeling.NormalAttribute, h.f3s(len(pos), false))
+		}
+		return m
+	}
+	for k := 2 + rng.Intn(3); k > 0; k-- {
+		src := h.enter(mk())
+		h.step++
+		h.lastOp = "removenullfaces"
+		func() {
+			defer func() {
+				if r := recover(); r != nil {
+					h.c.Note("op.panic.removenullfaces.scripted")
+				}
+			}()
+			var out modeling.Mesh
+			if rng.Intn(2) == 0 {
+				out = meshops.RemoveNullFaces3D(h.pool[src], modeling.PositionAttribute, 0.001)
+			} else {
+				out = h.pool[src].Transform(meshops.RemoveNullFaces3DTransformer{MinArea: 0.001})
+			}
+			if out.Indices().Len() != h.pool[src].Indices().Len() {
+				var b strings.Builder
+				fmt.Fprintf(&b, "%s ARGS 1 %s", c01RebuildParams(out, 0), h.argMesh(h.pool[src]))
+				h.c.Emit("c01.shape", b.String(), h.resultShape(out))
+			}
+			h.enter(out)
+		}()
+		h.checkAll()
+	}
+	h.c.Note("scripted.nullfaces")
+}
+
 func runC01(c *Ctx) {
 	defer os.RemoveAll(filepath.Join(os.TempDir(), fmt.Sprintf("c01h-%d", os.Getpid())))
 	unit := c01Digest((&c01Hist{c: c, mats: map[*modeling.Material]int{}}).canon(primitives.UnitCube()))
@@ -1546,11 +1692,15 @@ func runC01(c *Ctx) {
 	}
 	for id := 0; id < c.N; id++ {
 		h := &c01Hist{c: c, id: id, maps: map[uintptr]int{}, mats: map[*modeling.Material]int{}, lastOp: "init", reported: map[int]bool{}}
-		for i := 0; i < 3; i++ {
-			h.pal = append(h.pal, &modeling.Material{Name: fmt.Sprintf("mat%d", i)})
+		h.pal = c01Palette(c, id)
+		for _, p := range h.pal {
+			h.palEntry = append(h.palEntry, c01Digest(c01MatDeep(p)))
 		}
 		if c.Rng.Intn(3) == 0 {
 			h.scriptedBranch()
+		}
+		if c.Rng.Intn(4) == 0 {
+			h.scriptedNullFaces()
 		}
 		for k := 1 + c.Rng.Intn(3); k > 0; k-- {
 			h.enter(h.newBase())
